@@ -334,7 +334,10 @@ def run(prog, rep, tier):
         with contextlib.redirect_stdout(io.StringIO()):
             _run_c01_rules(prog, sub)
     except CheckerError as e:
-        raise
+        # the lifted C01 rules lost an anchor: go on with this property's own rules and fail closed at
+        # the end unless one of them reports a violation (a decided violation beats "cannot decide")
+        c01_run_ok = False
+        c01_deferred = e
     for (rid, key, what, detail) in sub.violations:
         if rid in ("R1.2", "R1.3"):
             rep.violation(R62, key.split("|", 1)[1], what)
@@ -722,6 +725,42 @@ def run(prog, rep, tier):
     if n610 == 0:
         raise CheckerError("R6.10: no send on a Sender<ChanDatum> found")
 
+    # ------------------------------------------------------------ R6.11 the directory walker is not run from inside its own thread pool
+    # process_path walks directories with jwalk, which schedules its work on rayon's global pool and
+    # gives up ("thread-pool too busy") when no pool thread becomes free.  Calling it from a closure that
+    # itself runs on that pool (par_iter, rayon::scope/spawn/join) makes the result depend on how many
+    # pool threads the machine has and on scheduling: with few cores whole directory arguments are
+    # dropped silently.
+    import re as _re611
+    R611 = rep.rule("R6.11", "no function that runs a jwalk walk is called from a closure handed to rayon")
+    cg611 = prog.callgraph()
+    walkers = {p_ for p_, cs in cg611.items() if any("jwalk::WalkDir" in d_ and d_.endswith("::new") for d_ in cs)}
+    if not walkers:
+        raise CheckerError("R6.11: no function uses jwalk::WalkDir (anchor: filepreprocessor::process_path)")
+    by_span = {}
+    for cb_ in prog.bodies():
+        if "{closure" in cb_.path:
+            by_span[cb_.j.get("span", "").rsplit(":", 0)[0]] = cb_.path
+    nested = []
+    nray = 0
+    for ob_ in prog.bodies():
+        if not (ob_.path.startswith("s4::") or ob_.path.startswith("s4lib::")) or "_tests" in ob_.path:
+            continue
+        for c in ob_.live_calls():
+            if "rayon" not in c.d:
+                continue
+            nray += 1
+            for m_ in _re611.finditer(r"\{closure@([^ :]+:\d+:\d+)", str(c.callee.get("ga"))):
+                cp_ = by_span.get(m_.group(1))
+                if cp_ and (set(prog.reachable_fns([cp_])) & walkers):
+                    nested.append((ob_.path, c.line, c.d.split("::")[-1], cp_))
+    rep.examined(R611, "rayon-closures", sample={"functions_running_a_jwalk_walk": sorted(walkers), "calls_into_rayon_from_s4": nray, "walks_started_from_rayon_closures": [n_[:3] for n_ in nested]})
+    for n_ in nested[:1]:
+        rep.violation(R611, "%s|%s|walk-inside-pool" % (n_[0], n_[2]), "%s (line %d) hands rayon's %s() a closure that reaches %s; jwalk needs a free thread of the same pool and reports 'thread-pool too busy' when there is none, "
+                      "so on machines with few cores directory arguments are silently dropped - the output depends on core count and scheduling" % (n_[0], n_[1], n_[2], sorted(set(prog.reachable_fns([n_[3]])) & walkers)[0].split("::")[-1]))
+
+    if not c01_run_ok and not rep.violations:
+        raise c01_deferred
     return rep.finish(
         "Static necessary-condition check of the coordination protocol: typestate fixpoint of the worker protocol over all CFG paths of the four "
         "worker functions (no return before FileInfo, no send after FileSummary), the coordinator's wait condition and books (C01 R1.2/R1.3), "
